@@ -24,6 +24,7 @@ import (
 // route name http.80) on generated Gateways + VirtualServices.
 // Part D: the REAL SortVHostRoutes on long route lists.
 
+// GW is one SERVER of a Gateway resource (a Gateway with two servers appears twice, same Name).
 type GW struct {
 	Name  string // "ns/gw-a"
 	Hosts []string
@@ -32,24 +33,40 @@ type GVS struct {
 	Hosts, Gateways []string
 	Rules           []Rule
 }
+type GatewayFeatures struct {
+	Gateways            int  // Gateway resources on the workload (same HTTP port)
+	TwoServersOneGW     bool // some Gateway has two servers (different hosts) on the port
+	SharedVS            bool // a VirtualService names hosts of two different servers
+	SharedVSSameGateway bool // ... of the SAME Gateway (its translated routes are reused across the servers)
+	BoundSeveralGW      bool // a VirtualService is bound to several Gateways
+	BoundMesh           bool // ... and to mesh
+	PerMatchGateways    bool // match blocks with a gateways condition
+	FilteredRules       bool // rules / match blocks that do not apply to (some of) the bound gateways (mesh-only, other gateway)
+	MergedHosts         bool // several VirtualServices on one host (routes merged, catch-alls sorted last)
+}
 type GwScenario struct {
-	GWs []GW
-	VSs []GVS
+	GWs      []GW
+	VSs      []GVS
+	Features GatewayFeatures
 }
 
 var gwHostPool = []string{"a.example.com", "b.example.com", "c.example.com", "d.example.com", "e.example.com"}
 
 func genGwScenario(r *vlib.Rand) GwScenario {
 	sc := GwScenario{}
-	ngw := 2 + r.Intn(2)
+	ngw := 1 + r.Intn(3)
 	names := []string{"ns/gw-a", "ns/gw-b", "ns/gw-c"}[:ngw]
+	// servers: one or two per Gateway
 	for _, n := range names {
 		sc.GWs = append(sc.GWs, GW{Name: n})
+		if r.Chance(50) || ngw == 1 {
+			sc.GWs = append(sc.GWs, GW{Name: n})
+		}
 	}
-	// every host is served by exactly one Gateway
+	// every host is served by exactly one server
 	for _, h := range gwHostPool {
-		if r.Chance(80) {
-			i := r.Intn(ngw)
+		if r.Chance(85) {
+			i := r.Intn(len(sc.GWs))
 			sc.GWs[i].Hosts = append(sc.GWs[i].Hosts, h)
 		}
 	}
@@ -58,42 +75,59 @@ func genGwScenario(r *vlib.Rand) GwScenario {
 			sc.GWs[i].Hosts = []string{"only-" + strconv.Itoa(i) + ".example.com"}
 		}
 	}
+	var allHosts []string
+	for _, g := range sc.GWs {
+		allHosts = append(allHosts, g.Hosts...)
+	}
 	cx := Ctx{Port: 80, NS: "ns", Gateways: []string{"ns/gw-a"}, Labels: [][2]string{{"istio", "ingressgateway"}}}
-	nvs := 1 + r.Intn(3)
+	nvs := 1 + r.Intn(4)
+	wantShared := r.Chance(60) // feature: the first VirtualService spans all servers and has a filtered rule
 	for i := 0; i < nvs; i++ {
 		v := GVS{}
-		for _, h := range gwHostPool {
-			if r.Chance(45) {
-				v.Hosts = append(v.Hosts, strings.ToLower(h))
+		if wantShared && i == 0 {
+			v.Hosts = append(v.Hosts, allHosts...)
+			v.Gateways = append(v.Gateways, names...)
+		} else {
+			for _, h := range allHosts {
+				if r.Chance(40) {
+					v.Hosts = append(v.Hosts, h)
+				}
+			}
+			if len(v.Hosts) == 0 {
+				v.Hosts = []string{vlib.Pick(r, allHosts)}
+			}
+			for _, n := range names {
+				if r.Chance(65) {
+					v.Gateways = append(v.Gateways, n)
+				}
+			}
+			if len(v.Gateways) == 0 {
+				v.Gateways = []string{vlib.Pick(r, names)}
 			}
 		}
-		if len(v.Hosts) == 0 {
-			v.Hosts = []string{strings.ToLower(vlib.Pick(r, gwHostPool))}
-		}
-		for _, n := range names {
-			if r.Chance(65) {
-				v.Gateways = append(v.Gateways, n)
-			}
-		}
-		if len(v.Gateways) == 0 {
-			v.Gateways = []string{vlib.Pick(r, names)}
-		}
-		if r.Chance(15) {
+		if r.Chance(25) {
 			v.Gateways = append(v.Gateways, "mesh")
 		}
 		nr := 1 + r.Intn(3)
+		if wantShared && i == 0 {
+			// a rule that is filtered out for every gateway: only for mesh sidecars
+			v.Rules = append(v.Rules, Rule{Matches: []Match{{Uri: &SM{K: 3, S: "/mesh-only"}, Gateways: []string{"mesh"}}},
+				Dests: []Dest{{Host: vlib.Pick(r, gHosts), Weight: 100}}})
+		}
 		for j := 0; j < nr; j++ {
 			ru := genRule(r, cx)
 			// per-match gateways conditions over the scenario's gateways
 			for k := range ru.Matches {
 				m := &ru.Matches[k]
 				m.Port = 0
-				switch r.Intn(4) {
+				switch r.Intn(6) {
 				case 0:
 					m.Gateways, m.Labels, m.NS = []string{vlib.Pick(r, names)}, nil, ""
 				case 1:
 					m.Gateways, m.Labels, m.NS = []string{vlib.Pick(r, names), "mesh"}, nil, ""
 				case 2:
+					m.Gateways, m.Labels, m.NS = []string{"mesh"}, nil, ""
+				case 3, 4:
 					m.Gateways = nil
 				}
 			}
@@ -101,18 +135,98 @@ func genGwScenario(r *vlib.Rand) GwScenario {
 		}
 		sc.VSs = append(sc.VSs, v)
 	}
+	// record the features drawn
+	f := GatewayFeatures{Gateways: ngw}
+	perName := map[string]int{}
+	serverOf := map[string]int{}
+	for i, g := range sc.GWs {
+		perName[g.Name]++
+		for _, h := range g.Hosts {
+			serverOf[h] = i
+		}
+	}
+	for _, k := range perName {
+		f.TwoServersOneGW = f.TwoServersOneGW || k > 1
+	}
+	hostVS := map[string]int{}
+	for _, v := range sc.VSs {
+		ng := 0
+		for _, g := range v.Gateways {
+			if g == "mesh" {
+				f.BoundMesh = true
+			} else {
+				ng++
+			}
+		}
+		f.BoundSeveralGW = f.BoundSeveralGW || ng > 1
+		for a, h1 := range v.Hosts {
+			hostVS[h1]++
+			for _, h2 := range v.Hosts[a+1:] {
+				if serverOf[h1] != serverOf[h2] {
+					f.SharedVS = true
+					if sc.GWs[serverOf[h1]].Name == sc.GWs[serverOf[h2]].Name {
+						f.SharedVSSameGateway = true
+					}
+				}
+			}
+		}
+		for _, ru := range v.Rules {
+			for _, m := range ru.Matches {
+				if len(m.Gateways) > 0 {
+					f.PerMatchGateways = true
+					for _, bound := range v.Gateways {
+						if bound != "mesh" && !slices.Contains(m.Gateways, bound) {
+							f.FilteredRules = true
+						}
+					}
+				}
+			}
+		}
+	}
+	for _, k := range hostVS {
+		f.MergedHosts = f.MergedHosts || k > 1
+	}
+	sc.Features = f
 	return sc
+}
+
+func (f GatewayFeatures) tags() []string {
+	t := []string{"C:gateways-" + strconv.Itoa(f.Gateways)}
+	add := func(b bool, s string) {
+		if b {
+			t = append(t, s)
+		}
+	}
+	add(f.TwoServersOneGW, "C:two-servers-one-gateway")
+	add(f.SharedVS, "C:vs-spans-servers")
+	add(f.SharedVSSameGateway, "C:vs-spans-servers-of-one-gateway")
+	add(f.BoundSeveralGW, "C:vs-bound-to-several-gateways")
+	add(f.BoundMesh, "C:vs-bound-to-mesh-too")
+	add(f.PerMatchGateways, "C:per-match-gateways")
+	add(f.FilteredRules, "C:rules-filtered-for-a-bound-gateway")
+	add(f.MergedHosts, "C:several-vs-on-one-host")
+	return t
 }
 
 func runGateway(t *testing.T, sc GwScenario) []*route.VirtualHost {
 	var cfgs []config.Config
-	for _, g := range sc.GWs {
+	byName := map[string]*networking.Gateway{}
+	var order []string
+	for i, g := range sc.GWs {
+		gw := byName[g.Name]
+		if gw == nil {
+			gw = &networking.Gateway{Selector: map[string]string{"istio": "ingressgateway"}}
+			byName[g.Name] = gw
+			order = append(order, g.Name)
+		}
+		gw.Servers = append(gw.Servers, &networking.Server{Hosts: g.Hosts,
+			Port: &networking.Port{Name: "http-" + strconv.Itoa(i), Number: 80, Protocol: "HTTP"}})
+	}
+	for i, n := range order {
 		cfgs = append(cfgs, config.Config{
-			Meta: config.Meta{GroupVersionKind: gvk.Gateway, Name: strings.TrimPrefix(g.Name, "ns/"), Namespace: "ns"},
-			Spec: &networking.Gateway{
-				Selector: map[string]string{"istio": "ingressgateway"},
-				Servers:  []*networking.Server{{Hosts: g.Hosts, Port: &networking.Port{Name: "http", Number: 80, Protocol: "HTTP"}}},
-			},
+			Meta: config.Meta{GroupVersionKind: gvk.Gateway, Name: strings.TrimPrefix(n, "ns/"), Namespace: "ns",
+				CreationTimestamp: t0.Add(time.Duration(i) * time.Minute)},
+			Spec: byName[n],
 		})
 	}
 	for i, v := range sc.VSs {
@@ -164,20 +278,39 @@ func genGatewayCases(t *testing.T, c *vlib.Collector, id int, seed uint64) int {
 		cx := Ctx{Port: 80, NS: "ns", Gateways: nil, Labels: [][2]string{{"istio", "ingressgateway"}}}
 		rules := allRules(sc.VSs)
 		var plain, tagged []Request
+		put := func(q Request) {
+			if findingApplies(rules, q) {
+				tagged = append(tagged, q)
+			} else {
+				plain = append(plain, q)
+			}
+		}
 		for _, g := range sc.GWs {
 			for _, h := range g.Hosts {
-				for k := 0; k < 3; k++ {
+				// one request built for every (host, rule) pair of the VirtualServices naming the host ...
+				for _, v := range sc.VSs {
+					if !slices.Contains(v.Hosts, h) {
+						continue
+					}
+					for ri := range v.Rules {
+						var q Request
+						if ms := v.Rules[ri].Matches; len(ms) > 0 {
+							q = genRequestFor(r, rules, cx, &ms[r.Intn(len(ms))])
+						} else {
+							q = genRequest(r, nil, cx)
+						}
+						q.Authority = h
+						put(q)
+					}
+				}
+				// ... and two drawn from the literal pools / near misses
+				for k := 0; k < 2; k++ {
 					q := genRequest(r, rules, cx)
 					q.Authority = h
-					if k == 2 && r.Bool() {
-						q.Authority = strings.ToLower(h) + ":80"
+					if k == 1 && r.Bool() {
+						q.Authority = h + ":80"
 					}
-					// an authority condition of the rules would need its own literal; keep the host
-					if findingApplies(rules, q) {
-						tagged = append(tagged, q)
-					} else {
-						plain = append(plain, q)
-					}
+					put(q)
 				}
 			}
 		}
@@ -188,28 +321,8 @@ func genGatewayCases(t *testing.T, c *vlib.Collector, id int, seed uint64) int {
 		})
 		obs := vlib.ListOf(vhosts, vhostTerm)
 		res := collectRegex(rules)
-		tags := []string{"C:gateways-" + strconv.Itoa(len(sc.GWs)), "C:vs-" + strconv.Itoa(len(sc.VSs))}
-		shared, perGw := false, false
-		for _, v := range sc.VSs {
-			ng := 0
-			for _, g := range v.Gateways {
-				if g != "mesh" {
-					ng++
-				}
-			}
-			shared = shared || ng > 1
-			for _, ru := range v.Rules {
-				for _, m := range ru.Matches {
-					perGw = perGw || len(m.Gateways) > 0
-				}
-			}
-		}
-		if shared {
-			tags = append(tags, "C:vs-bound-to-several-gateways")
-		}
-		if perGw {
-			tags = append(tags, "C:per-match-gateways")
-		}
+		tags := append(sc.Features.tags(), "C:vs-"+strconv.Itoa(len(sc.VSs)))
+		shared, perGw := sc.Features.BoundSeveralGW || sc.Features.SharedVS, sc.Features.PerMatchGateways
 		for _, vh := range vhosts {
 			if len(vh.Routes) > 12 {
 				tags = append(tags, "C:vhost>12-routes")
@@ -226,7 +339,7 @@ func genGatewayCases(t *testing.T, c *vlib.Collector, id int, seed uint64) int {
 				c.FindingOf[id] = findingWithoutEmpty
 			}
 			c.Add(vlib.Case{ID: id, Term: term, Tags: tags, Trivial: !shared && !perGw,
-				Sample: map[string]any{"scenario": sc, "requests": g, "vhosts": len(vhosts)}})
+				Sample: map[string]any{"features": sc.Features, "scenario": sc, "requests": g, "vhosts": len(vhosts)}})
 			id++
 		}
 	}
